@@ -26,6 +26,14 @@ class TGen(progs.Gen):
     def mutation(self, scope, depth):       # the property's quantifier: no container mutation after binding
         return None
 
+    def elem_access(self, scope, t, depth):
+        """A constant index into a *heterogeneous* tuple display is typed by the checker as the union of all elements
+        (known finding `false-error:incompatible-type:tuple-literal-index`, kept as a corpus case); random modules use the
+        list form only, so that one root cause is not re-reported under the message of whatever operator consumes the
+        mis-typed value."""
+        c = self.nonempty_list(scope, t, depth)
+        return ("index", c, self.pick([("int", 0), ("int", -1)]))
+
     def def_stmt(self, scope, depth):
         out = super().def_stmt(scope, depth)
         d = out[0]
